@@ -355,7 +355,9 @@ def run(ctx):
     ctx.extra["sensitivity"] = sens
     if not quick:
         ctx.tlc("Listener", "ListenerBig.cfg", timeout=3000,
-                label="3 senders x 2 indications x 2 callbacks, unbounded queue")
+                label="3 senders x 1 indication x 2 callbacks, queue bound 2")
+        ctx.tlc("Listener", "ListenerBig2.cfg", timeout=3000,
+                label="2 senders x 3 indications x 1 callback, queue bound 2")
         ctx.tlc("Listener", "ListenerRestart.cfg", timeout=3000,
                 label="2x2x1 with restart (second start/stop)")
     runs = []
